@@ -324,3 +324,5 @@ def run(ck: Check, repo: Repo) -> None:
     # 'never touching ignored or excluded files': the VCS membership tests must compare like with like
     from . import c03
     c03.rule_path_bases(ck, repo, "R6")
+    # where the project IS: the root reported by the VCS must be used verbatim
+    c03.rule_vcs_output_verbatim(ck, repo, "R7")
